@@ -201,8 +201,15 @@ def _bool_atoms(nf: NF, e, sc, at, atoms: dict):
         return ("and" if isinstance(e.op, ast.And) else "or", tuple(_bool_atoms(nf, v, sc, at, atoms) for v in e.values))
     if isinstance(e, ast.UnaryOp) and isinstance(e.op, ast.Not):
         return ("not", _bool_atoms(nf, e.operand, sc, at, atoms))
+    if isinstance(e, ast.Constant) and isinstance(e.value, bool):
+        return ("and", ()) if e.value else ("or", ())
+    if isinstance(e, ast.IfExp):
+        t = _bool_atoms(nf, e.test, sc, at, atoms)
+        return ("or", (("and", (t, _bool_atoms(nf, e.body, sc, at, atoms))), ("and", (("not", t), _bool_atoms(nf, e.orelse, sc, at, atoms)))))
     if isinstance(e, ast.Name) and sc.cfg is not None and at is not None and e.id not in sc.opaque_names:
         rhs = sc.cfg._expand_name(e, at)
+        if rhs is None:
+            rhs = structured_value(sc.cfg, e.id, at)
         if rhs is not None:
             return _bool_atoms(nf, rhs, sc, at, atoms)
     if isinstance(e, ast.Compare) and len(e.ops) >= 1:
@@ -222,6 +229,9 @@ def _bool_atoms(nf: NF, e, sc, at, atoms: dict):
                 f = ("rel", "eq", a, b)
                 if isinstance(op, ast.NotEq):
                     f = ("not", f)
+            elif isinstance(op, (ast.NotIn, ast.IsNot)):
+                pos = ast.In() if isinstance(op, ast.NotIn) else ast.Is()
+                f = ("not", ("atom", nf.poly(ast.Compare(left=parts[i], ops=[pos], comparators=[parts[i + 1]]), sc, at).canon()))
             else:
                 f = ("atom", nf.poly(ast.Compare(left=parts[i], ops=[op], comparators=[parts[i + 1]]), sc, at).canon())
             conj.append(f)
@@ -230,6 +240,75 @@ def _bool_atoms(nf: NF, e, sc, at, atoms: dict):
     if isinstance(e, ast.BinOp) and isinstance(e.op, ast.Mod):
         return ("not", ("rel", "eq", "0", c))     # truthiness of x % k
     return ("atom", c)
+
+
+def structured_value(cfg, name: str, at: int, _depth: int = 0):
+    """The value a local has at node ``at`` as one expression, when it is assigned in the arms of preceding if-statements:
+    `if c: x = a  else: x = b` -> `a if c else b` (nested ifs nest).  None when some arm leaves the name unassigned, a loop is in the
+    way, or an operand of the expression is stored between the assignment and the use."""
+    node = cfg.nodes[at]
+    st = node.ast
+    if st is None:
+        return None
+
+    def assigns(s_):
+        return any(isinstance(x, ast.Name) and x.id == name and isinstance(x.ctx, ast.Store) for x in ast.walk(s_))
+
+    def from_block(block):
+        for s_ in reversed(block):
+            if not assigns(s_):
+                continue
+            if isinstance(s_, ast.Assign) and len(s_.targets) == 1 and isinstance(s_.targets[0], ast.Name) and s_.targets[0].id == name:
+                return s_.value, s_
+            if isinstance(s_, ast.If):
+                a, b = from_block(s_.body), from_block(s_.orelse)
+                if a is None or b is None:
+                    # an arm that does not assign keeps the earlier value: look before the if
+                    return None
+                return ast.IfExp(test=s_.test, body=a[0], orelse=b[0]), s_
+            return None
+        return None
+    child = st
+    parent = getattr(child, "_parent", None)
+    while parent is not None and not isinstance(parent, (ast.FunctionDef, ast.Lambda)):
+        for field in ("body", "orelse", "finalbody"):
+            blk = getattr(parent, field, None)
+            if isinstance(blk, list) and any(child is x for x in blk):
+                idx = next(i for i, x in enumerate(blk) if x is child)
+                r = from_block(blk[:idx])
+                if r is not None:
+                    val, src_stmt = r
+                    return _stable_between(cfg, val, src_stmt, st, name)
+                if any(assigns(x) for x in blk[:idx]):
+                    return None
+        if isinstance(parent, (ast.For, ast.While, ast.AsyncFor, ast.Try, ast.With)):
+            return None
+        child, parent = parent, getattr(parent, "_parent", None)
+    if isinstance(parent, ast.FunctionDef):
+        blk = parent.body
+        if any(child is x for x in blk):
+            idx = next(i for i, x in enumerate(blk) if x is child)
+            r = from_block(blk[:idx])
+            if r is not None:
+                return _stable_between(cfg, r[0], r[1], st, name)
+    return None
+
+
+def _stable_between(cfg, val, src_stmt, use_stmt, name):
+    names = {x.id for x in ast.walk(val) if isinstance(x, ast.Name)} - {name}
+    attrs = {ast.unparse(x) for x in ast.walk(val) if isinstance(x, (ast.Attribute, ast.Subscript))}
+    lo, hi = getattr(src_stmt, "end_lineno", getattr(src_stmt, "lineno", 0)), getattr(use_stmt, "lineno", 0)
+    fn = cfg.fn
+    for x in ast.walk(fn):
+        ln = getattr(x, "lineno", None)
+        if ln is None or not (lo < ln < hi):
+            continue
+        if isinstance(x, ast.Name) and isinstance(x.ctx, ast.Store) and x.id in names:
+            return None
+        if isinstance(x, (ast.Attribute, ast.Subscript)) and isinstance(x.ctx, ast.Store) and any(ast.unparse(x) == a_ or a_.startswith(ast.unparse(x)) for a_ in attrs):
+            return None
+    ast.fix_missing_locations(ast.copy_location(val, use_stmt)) if not hasattr(val, "lineno") else None
+    return val
 
 
 def _leaves(f):
